@@ -201,6 +201,11 @@ def run(ctx: core.Ctx):
     ue = unencodable_error_probe(ctx)
     if ue and witness is None:
         witness = ue
+    # real sockets: a result larger than the kernel buffers to a client that reads slowly (plain, TLS, a small send buffer; text and
+    # binary): complete, in sequence, and the next command is answered
+    rsw = core.realsock_witness(core.realsock(ctx, ["slow_reader"]))
+    if rsw and witness is None:
+        witness = rsw
     # a command the server does not finish answering: where the model keeps serving, the implementation closed its session -
     # in these conversations the client never goes away, sends nothing malformed and nobody kills anything
     for c in disagreements:
